@@ -5,8 +5,8 @@ import ast
 import re
 
 from ..consteval import ConstEval
-from ..core import AnalysisError, own_nodes, short, unparse
-from ..rules import defs, exa, fmt, lint, nul, shape
+from ..core import AnalysisError, own_nodes, parent, short, unparse
+from ..rules import defs, exa, fmt, lint, nul, shape, match
 from . import common
 
 EXPLANATION = (
@@ -25,6 +25,7 @@ EXPLANATION = (
   ' (ORD-br / PAIR-span) as for SRT; (ORD-settings / TAB-settings / TAB-region-key) cue settings are complete before a region is looked up, every setting has a branch, and regions are shared only on equal settings;'
   ' (TYPESTATE-buffer / TYPESTATE-flush) the tokenizer leaves no state with a non-empty buffer unflushed at end of input or at a state change;'
   ' (FIN-linenum) a line number n >= 0 (0 included) is the offset 100 n / N from the near edge and n < 0 the offset 100 + 100 n / N, evaluated for seven line numbers in both writing directions;'
+  " (FIN-cref) in the tokenizer's two reference states the text handed to html.unescape includes the terminating semicolon, so &lrm; / &rlm; are decoded and an unknown reference stays as written;"
 )
 RULE_TEXT = "per call site / function / enum / printed sample"
 UNDECIDED = ["cue-setting geometry (line numbers <= 0, position with size)", "tag scoping", "region sharing for equal settings"]
@@ -291,6 +292,39 @@ def check_line_numbers(ctx):
               "; ".join(wrong[:3]) + ": the region starts outside the root container or has a negative extent")
 
 
+def check_cref_terminator(ctx):
+  """FIN-cref: a character reference is `&name;` including its semicolon.  html.unescape decodes
+  most names only when the semicolon is present (`&lrm;`, `&rlm;`; a few legacy names such as
+  `&amp` also decode without), and a reference that is not decoded must be left in the text as it
+  was written.  In each branch of the tokenizer that handles the terminating `;`, the buffer whose
+  text is handed to html.unescape therefore receives the `;` (or the argument appends it) before the
+  call."""
+  ix = ctx.ix
+  f = ix.func("ttconv.vtt.tokenizer:CueTextTokenizer")
+  ctx.unit(f.module)
+  calls = [c for c in own_nodes(f.node) if isinstance(c, ast.Call) and unparse(c.func).endswith("unescape") and c.args]
+  ctx.floor("FIN-cref", "character-reference decoding sites", len(calls), 2)
+
+  def is_semicolon(e):
+    return (isinstance(e, ast.Constant) and e.value == ";") or (isinstance(e, ast.Call) and isinstance(e.func, ast.Name) and e.func.id == "chr" and e.args and unparse(e.args[0]) == "c")
+  for c in calls:
+    arg = match.inline_locals_deep(f.node, c.args[0], depth=1)
+    bufs = {x.args[0].id for x in ast.walk(arg) if isinstance(x, ast.Call) and isinstance(x.func, ast.Name) and x.func.id == "str" and x.args and isinstance(x.args[0], ast.Name)}
+    direct = any(isinstance(x, ast.BinOp) and isinstance(x.op, ast.Add) and is_semicolon(x.right) for x in ast.walk(arg)) or \
+      any(isinstance(x, ast.JoinedStr) and x.values and isinstance(x.values[-1], ast.Constant) and str(x.values[-1].value).endswith(";") for x in ast.walk(arg))
+    # the statements of the same block that precede the call
+    st = c
+    while not isinstance(parent(st), (ast.If, ast.For, ast.While, ast.FunctionDef)) or not any(x is st for fld in ("body", "orelse") for x in getattr(parent(st), fld, [])):
+      st = parent(st)
+    blk = next(getattr(parent(st), fld) for fld in ("body", "orelse") if any(x is st for x in getattr(parent(st), fld, [])))
+    before = blk[:next(k for k, x in enumerate(blk) if x is st)]
+    appended = any(isinstance(x, ast.Call) and isinstance(x.func, ast.Attribute) and x.func.attr == "append" and isinstance(x.func.value, ast.Name) and x.func.value.id in bufs
+                   and x.args and is_semicolon(x.args[0]) for b in before for x in ast.walk(b))
+    state_name = next((unparse(t).split(".")[-1] for t, pol in match.enclosing_conditions(c, f.node) if pol and "state" in unparse(t) and "_State." in unparse(t)), "?")
+    ctx.check(direct or appended, "FIN-cref", f"{f.qualname}|{short(c, 50)} in state {state_name}", ctx.where(f.module, c), "the reference is decoded together with its `;`",
+              f"`{short(c, 50)}` decodes the reference without its terminating `;`: html.unescape leaves `&lrm` / `&rlm` undecoded, and the semicolon of every undecoded reference is lost from the text")
+
+
 def run(ctx):
   ix = ctx.ix
   nul.IMPLICATIONS.clear()
@@ -348,4 +382,5 @@ def run(ctx):
   ctx.note(f"TYPESTATE-flush: {nfl} leaving branches of buffer-filling states")
   common.check_item_handlers(ctx, ["ttconv.vtt.reader", "ttconv.vtt.tokenizer", "ttconv.utils"])
   check_line_numbers(ctx)
+  check_cref_terminator(ctx)
   common.check_history_independence(ctx, ["ttconv.vtt.reader", "ttconv.vtt.tokenizer", "ttconv.utils"])
